@@ -4,7 +4,7 @@ from __future__ import annotations
 import ast
 
 from sa.cfg import CFG
-from sa.expr import edges_where, resolve, single_defs
+from sa.expr import cmp_atom, edges_where, resolve, single_defs
 from sa.loader import AnalysisError, Program, dotted, norm, own_nodes
 from sa.locks import ClassLockInfo, EXEMPT
 from sa.util import (call_sites, kwarg, parent_map, self_attr, stmt_of, where, ancestors,
@@ -65,6 +65,70 @@ def check_no_self_deadlock(ctx, rule, info: ClassLockInfo):
                                f"non-reentrant self.{info.lock}, and {callee} acquires it again "
                                f"(self-deadlock)"),
                       how="callee never acquires the lock", where=where(f, call))
+
+
+def mirrored_write_in_one_section(ctx, rule, info):
+    """_CachedStorage: a storage *write* that the cache mirrors (create_new_study, delete_study, create_new_trial) calls the backend and
+    updates the cache in ONE critical section. With the backend call outside the lock another thread of the same client acts on the
+    backend's new state first (finds the new study by name and fills its entry; re-fills the cache of a study that is being deleted) and
+    the late cache update then replaces / misses that (shared by C03 R03.10 and C08 R08.7)."""
+    n_w = 0
+    for mname, f in sorted(info.methods.items()):
+        if mname.startswith("_") or not (mname.startswith("create_") or mname.startswith("delete_") or mname.startswith("set_")):
+            continue
+        pm = parent_map(f.node)
+        bcalls = [c for c in own_nodes(f.node) if isinstance(c, ast.Call) and isinstance(c.func, ast.Attribute) and norm(c.func.value) == "self._backend"
+                  and c.func.attr.lstrip("_") == mname]
+        muts = [a.node for a in info.accesses.get(mname, []) if a.kind in ("write", "mutate") and a.field in info.guarded]
+        if not bcalls or not muts:
+            continue
+        n_w += 1
+
+        def section(n):
+            for a in ancestors(n, pm):
+                if isinstance(a, ast.With) and any(self_attr(i.context_expr) == info.lock for i in a.items):
+                    return a
+            return None
+        secs = {id(section(n)) for n in bcalls + muts}
+        ok = len(secs) == 1 and all(section(n) is not None for n in bcalls + muts)
+        ctx.check(ok, rule, f.short, "backend-write-and-cache-update-in-one-section",
+                  message=f"{info.cls.name}.{mname} calls self._backend.{bcalls[0].func.attr}() and updates its cache in different critical sections (the backend call "
+                          f"runs without the cache lock): another thread of the same client can act on the backend's new state in between - fill the entry of a study "
+                          f"that was just created (then replaced by an empty one: get_trial raises KeyError for a RUNNING trial) or re-fill the cache of a study that is "
+                          f"being deleted (get_trial keeps answering after delete_study returned)",
+                  how="the backend call sits in the same `with <lock>` block as the cache updates", where=where(f, bcalls[0]))
+    ctx.floor(rule, "mirrored_writes", n_w, 3)
+
+
+def create_study_returns_named(ctx, rule):
+    """JournalStorage.create_new_study hands back the id of the study that carries *its* name (the unique key its own record carried),
+    found after the sync - not a counter or the newest entry, which another worker's CREATE_STUDY replayed in the same sync may have
+    moved (shared by C03 R03.9 and C01 R01.18)."""
+    p = ctx.program
+    f = p.func(JOURNAL + ".create_new_study")
+    g = CFG(f.node, name=f.qualname)
+    fdefs = single_defs(f.node)
+    rets = [n for n in g.stmt_nodes() if n.kind == "stmt" and isinstance(n.ast, ast.Return) and n.ast.value is not None
+            and not (isinstance(n.ast.value, ast.Constant) and n.ast.value.value is None)]
+    ctx.require(rets, f"{rule}: JournalStorage.create_new_study returns nothing")
+    loops = [n for n in own_nodes(f.node) if isinstance(n, ast.For) and isinstance(n.target, ast.Name) and "_replay_result" in norm(n.iter)]
+    for r in rets:
+        e = resolve(r.ast.value, fdefs)
+        lv = e.value.id if isinstance(e, ast.Attribute) and e.attr in ("_study_id", "study_id") and isinstance(e.value, ast.Name) else None
+        ok = lv is not None and any(lp.target.id == lv for lp in loops)
+        if ok:
+            def _named(x, lv=lv):
+                a = cmp_atom(x)
+                if a and {a[0], a[2]} == {f"{lv}.study_name", "study_name"}:
+                    return True if a[1] in (ast.Eq,) else (False if a[1] in (ast.NotEq,) else None)
+                return None
+            acc = [(t, k, m) for t in g.stmt_nodes() if t.kind == "test" for k, m in t.succ if edges_where(t.expr, _named).get(k) is True]
+            ok = bool(acc) and g.dominated_by(r, [], acc)
+        ctx.check(ok, rule, f.short, "returns-id-of-the-study-with-its-name",
+                  message=f"JournalStorage.create_new_study returns `{norm(e)[:60]}`, not the id of the replayed study whose name equals the name this call appended: when "
+                          f"another worker's CREATE_STUDY lands between this call's append and its read-back, the caller gets the other worker's id - its attributes and "
+                          f"trials go into somebody else's study and its own study stays empty",
+                  how="return <study>._study_id for the study found by `study.study_name == study_name` after the sync", where=where(f, r.ast))
 
 
 def run(ctx):
@@ -281,9 +345,24 @@ def run(ctx):
                           "study row (StudyModel.find_or_raise_by_id(.., for_update=True))",
                   how="study row lock dominates _get_prepared_new_trial",
                   witness=g.witness([n], guards=lockn), where=where(f, n.ast))
-    # the number is computed by count_past_trials inside _get_prepared_new_trial
+    # the number is computed by count_past_trials inside _get_prepared_new_trial - from the row's own id, i.e. after the INSERT was
+    # flushed: counting *before* the insert reads a snapshot that a concurrent creator shares (SQLite ignores the study row lock and a
+    # plain SELECT opens no transaction), so two workers get the same number
     f2 = p.lookup_method(rdb, "_get_prepared_new_trial")
     ctx.require(f2 is not None, "R03.4: _get_prepared_new_trial vanished")
+    g2 = CFG(f2.node, name=f2.qualname)
+    counts = [n for n in g2.stmt_nodes() if any(isinstance(c.func, ast.Attribute) and c.func.attr in ("count_past_trials", "scalar", "count") and
+                                                ("count" in norm(c)) for c in n.calls())]
+    flushes = [n for n in g2.stmt_nodes() for c in n.calls() if norm(c.func) == "session.flush"]
+    adds = [n for n in g2.stmt_nodes() for c in n.calls() if norm(c.func) == "session.add"]
+    ctx.require(counts, "R03.4: _get_prepared_new_trial no longer counts earlier trials")
+    okn = bool(flushes) and bool(adds) and all(g2.dominated_by(n, flushes) for n in counts) and all(g2.dominated_by(fl, adds) for fl in flushes[:1])
+    okn = okn and all(any(isinstance(c.func, ast.Attribute) and c.func.attr == "count_past_trials" for c in n.calls()) for n in counts)
+    ctx.check(okn, "R03.4", f2.short, "number-counted-after-own-insert",
+              message="_get_prepared_new_trial determines the trial number before the new row was inserted and flushed (or not from the row's own id): two workers "
+                      "creating trials of one study concurrently can both count N earlier trials and both insert number N - numbers are no longer unique and gap-free "
+                      "(on SQLite the row lock is ignored and the SELECT opens no transaction)",
+              how="session.add(trial); session.flush() dominate trial.count_past_trials(session) (trial_id < own id)", where=where(f2, counts[0].ast))
     # (c) record_heartbeat: update dominated by the for_update re-fetch
     f = p.lookup_method(rdb, "record_heartbeat")
     ctx.require(f is not None, "R03.4: RDBStorage.record_heartbeat vanished")
@@ -369,6 +448,8 @@ def run(ctx):
                           f"process appends a CREATE_TRIAL for the same study between this call's append and its sync, both calls return the same trial id and one trial is left "
                           f"without an owner", how="return value = a replay-result field assigned in _apply_create_trial under _is_issued_by_this_worker")
 
+    create_study_returns_named(ctx, "R03.9")
+
     # ---------------------------------------------------------------- R03.7 one critical section per call
     ctx.rule("R03.7", "InMemoryStorage / JournalStorage / GrpcClientCache: each public method interacts with shared state in exactly one "
              "critical section (no read in one region or self-locking call and write in another: lost updates)")
@@ -446,6 +527,7 @@ def run(ctx):
                                       f"overwrites - a trial seen COMPLETE is RUNNING again for later readers",
                               how="the fetch and the statement that stores it sit in the same `with <lock>` block", where=where(f, st))
     ctx.floor("R03.10", "fetch_merge_pairs", n_fm, 2)
+    mirrored_write_in_one_section(ctx, "R03.10", cs)
 
     # ---------------------------------------------------------------- R03.6 uniqueness constraints
     ctx.rule("R03.6", "RDB: the uniqueness the contract relies on under concurrent writers is declared in the schema "
